@@ -82,8 +82,7 @@ func TestC07(t *testing.T) {
 			msg = checkC07Chain(rp.Sc, nil)
 		}
 		if msg != "" {
-			st.Violate(msg, rp)
-			t.Fatal(msg)
+			fail(st, t, msg, rp)
 		}
 		return
 	}
@@ -119,8 +118,7 @@ func TestC07(t *testing.T) {
 					st.Sample(c)
 				}
 				if msg != "" {
-					st.Violate(msg, map[string]interface{}{"conv": c})
-					rt.Fatalf("%s", msg)
+					fail(st, rt, msg, map[string]interface{}{"conv": c})
 				}
 			}
 		})
